@@ -102,10 +102,13 @@ pub enum PathClass {
 }
 /// Classification of a point against a Manhattan path of width w. All comparisons on doubled integers (exact).
 pub fn path_class(points: &[P], w: i64, p: P) -> PathClass {
+    // (all arithmetic in 128 bits: query points may be anywhere in the 64-bit plane)
+    let w = w as i128;
+    let p = (p.0 as i128, p.1 as i128);
     let mut near = false;
     for k in 0..points.len().saturating_sub(1) {
-        let (a, b) = (points[k], points[k + 1]);
-        let (perp2, along_in, dist2_x4): (i64, bool, i128);
+        let (a, b) = ((points[k].0 as i128, points[k].1 as i128), (points[k + 1].0 as i128, points[k + 1].1 as i128));
+        let (perp2, along_in, dist2_x4): (i128, bool, i128);
         if a.0 == b.0 {
             // vertical (or zero-length)
             perp2 = 2 * (p.0 - a.0).abs();
@@ -113,19 +116,19 @@ pub fn path_class(points: &[P], w: i64, p: P) -> PathClass {
             along_in = p.1 >= lo && p.1 <= hi;
             let dy = if p.1 < lo { lo - p.1 } else if p.1 > hi { p.1 - hi } else { 0 };
             let dx = (p.0 - a.0).abs();
-            dist2_x4 = 4 * ((dx as i128) * (dx as i128) + (dy as i128) * (dy as i128));
+            dist2_x4 = (4 * (dx * dx)).saturating_add(4 * (dy * dy));
         } else {
             perp2 = 2 * (p.1 - a.1).abs();
             let (lo, hi) = (a.0.min(b.0), a.0.max(b.0));
             along_in = p.0 >= lo && p.0 <= hi;
             let dx = if p.0 < lo { lo - p.0 } else if p.0 > hi { p.0 - hi } else { 0 };
             let dy = (p.1 - a.1).abs();
-            dist2_x4 = 4 * ((dx as i128) * (dx as i128) + (dy as i128) * (dy as i128));
+            dist2_x4 = (4 * (dx * dx)).saturating_add(4 * (dy * dy));
         }
         if along_in && perp2 <= w {
             return PathClass::MustBeInside;
         }
-        if dist2_x4 <= (w as i128) * (w as i128) {
+        if dist2_x4 <= w * w {
             near = true;
         }
     }
